@@ -142,7 +142,7 @@ def _run(chk, tier, model_ok):
     t0 = time.time()
     n_random = 16 if quick else 120
     n_base = 5 if quick else 12
-    cases, dist = viewcorr.make_cases(chk, r, n_random, corpus_prop=PROP)
+    cases, dist = viewcorr.make_cases(chk, r, n_random, corpus_prop=PROP, logic_probes=True)
     pinned = []
     for k in chk.known:
         if k.get("property") == PROP and k.get("status") == "open":
